@@ -2,7 +2,7 @@
 # Creates /verif/.venv = /venv's python 3.12 + an overlay .pth (repo deps from /venv, glom from /repo
 # as *source*) + crosshair-tool from the offline wheelhouse.  Idempotent; offline.
 set -e
-V=/verif/.venv
+V="$(cd "$(dirname "$0")/.." && pwd)/.venv"
 if [ -x "$V/bin/python" ] && "$V/bin/python" -c "import crosshair, z3, glom, boltons, face" 2>/dev/null; then
   exit 0
 fi
